@@ -54,6 +54,7 @@ Definition shift (d : nat) (s : schema) : schema :=
 Record conn := { cn_to : ref;      (* action or checkpoint of the imported schema (its own, unshifted id) *)
                  cn_add : ref }.   (* checkpoint of the native schema *)
 Record import := { im_base : nat;  (* id range of this import: a positive multiple of OFF, distinct per import *)
+                   im_readable : bool; (* the file exists and parses *)
                    im_schema : schema; im_conns : list conn }.
 
 Definition union (a b : schema) : schema :=
@@ -125,6 +126,7 @@ Definition conn_ok (native : schema) (im : import) (c : conn) : bool :=
   rkind_eqb (r_kind (cn_add c)) RCheckpoint && isSome (find_checkpoint native (r_id (cn_add c))).
 
 Definition import_ok (cmp : ty -> cop -> ty -> bool) (tbl : list (ishape * ty * bool)) (native : schema) (im : import) : bool :=
+  im_readable im &&
   conforms_with cmp tbl (im_schema im) &&
   forallb (conn_ok native im) (im_conns im) &&
   nodup_by ref_eqb (map cn_to (im_conns im)).
